@@ -63,6 +63,26 @@ def check_list(mido, d, msgs, acc, idx_desc):
               and all(type(m) is mido.Message and m.type == 'sysex'
                       for m in got)
               and [sx(m) for m in got] == want)
+        # what is in the file is the SYX format itself (other tools read it):
+        # binary = the F0 .. F7 encodings back to back; text = two-digit hex
+        # of the same bytes separated by whitespace
+        try:
+            raw = open(fn, 'rb').read()
+            flat = bytes(b for w in want for b in (0xF0, *w, 0xF7))
+            if plaintext:
+                toks = raw.decode('latin1').split()
+                in_file = bytes(int(t, 16) for t in toks) if all(
+                    len(t) == 2 for t in toks) else None
+            else:
+                in_file = raw
+            if in_file != flat:
+                acc.violation(f'file-format/{"text" if plaintext else "binary"}',
+                              f'messages {idx_desc} plaintext={plaintext}: '
+                              f'file holds {raw[:60]!r}..., expected the '
+                              f'encodings {flat[:40].hex()}...', case)
+        except Exception as e:
+            acc.violation(f'file-format-raises/{type(e).__name__}', f'{e!r}',
+                          case)
         if ok and got:
             # history: change what was returned, read the same file again;
             # then overwrite it with a shorter list
